@@ -91,6 +91,14 @@ def extract(shadow):
         Rule('T-INST-fwd', r'^template< size_t L> class FixedString\n', 'namespace detail { class FixedStringIterator; class FixedStringReverseIterator; }\ntemplate< size_t L> class FixedString\n', 1),
         Rule('T-INST-include-late', r'^// =====  END OF fixed_string.hpp  =====', 'typedef celma::common::FixedString< CV_L> CV_FS;\n#include "celma/common/detail/fixed_string_iterator.hpp"\n'
              '#include "celma/common/detail/fixed_string_reverse_iterator.hpp"\n// =====  END OF fixed_string.hpp  =====', 1),
+        # the move constructor (rvalue reference) makes the front end abort as soon as ANY constructor is instantiated
+        Rule('drop-move-ctor-decl', r'^   FixedString\( FixedString&& other\) noexcept;\n', '', 1),
+        Rule('drop-move-ctor-def', r'^template< size_t L> FixedString< L>::FixedString\( FixedString&& other\) noexcept:.*?^\} // FixedString< L>::FixedString\n', '', 1, flags=re.M | re.S),
+        # R-NSDMI: `char mString[ L + 1] = { '\\0' }` (zero-filled array) is ignored by the front end; the two constructors under
+        # contract get the equivalent zero fill as first statement (mLength is initialised by their mem-initialiser lists)
+        Rule('R-NSDMI-ctor', r'(^template< size_t L> FixedString< L>::FixedString\( const (?:char\* str|std::string& str)\)\s*noexcept:\s*mLength\([^\n]*\)\n\{\n)',
+             r'\1   for (size_t cv_i = 0; cv_i <= L; ++cv_i) mString[ cv_i] = 0;   // R-NSDMI\n', 2),
+        Rule('R-DEFAULT-ctors', r'^   (FixedString\(\)|FixedString\( const FixedString&\)|~FixedString\(\)) = default;\n', '', 3),
         Rule('drop-ostream', r'^template< size_t L>\n   std::ostream& operator <<\(.*?\n\} // operator <<\n', '', 1,
              flags=re.M | re.S),
     ]
@@ -649,6 +657,6 @@ def evidence_info(unit, tier):
         'assumptions': ['per-instance proof: capacities ' + ('3, 5' if c11 else '1, 2, 3, 8') + ' (quick); 255/256 and 65535/65536 length-type boundaries not reached',
                         'source C-strings / std::string arguments of length <= L+3 (bounded); (str,count) buffers of <= L+3 bytes',
                         'throw in at() modelled by R-THROW (flag + return)', 'termination not proved',
-                        'iterator-taking overloads (insert/erase/replace/append with iterators), cross-capacity (template<size_t S>) overloads, sprintf, constructors and stream output are not under contract; the iterator classes themselves are (textual instantiation T := char, F := FixedString<L>)'],
-        'not_under_contract': drops + ['FixedString(const char*) / FixedString(const std::string&) / move constructor (front end aborts on the out-of-class constructor definitions)'],
+                        'iterator-taking overloads (insert/erase/replace/append with iterators), cross-capacity (template<size_t S>) overloads, sprintf, the defaulted/move special members and stream output are not under contract (FixedString(const char*) and FixedString(const std::string&) are); the iterator classes themselves are (textual instantiation T := char, F := FixedString<L>)'],
+        'not_under_contract': drops + ['FixedString() default constructor, copy constructor, destructor, copy assignment (all `= default`), move constructor (rvalue reference)'],
     }
